@@ -32,6 +32,11 @@ type NodeConfig struct {
 	ReconnectDelay     time.Duration
 	DemoteDelay        time.Duration
 
+	// ExitImage makes the node copy its data directory to Dir+".at-exit" at the instant Store.Exit is first called:
+	// a real process ends there, so that copy - not what the still-running store object does afterwards - is what a
+	// restarted process finds. See RestartFromExitImage.
+	ExitImage bool
+
 	// WrapOS, if set, wraps the store's OS interface (recording / crash injection).
 	WrapOS func(litefs.OS) litefs.OS
 	// Configure, if set, is called on the store before Open.
@@ -65,6 +70,11 @@ func (n *Node) Start() error {
 	s.Compress = cfg.Compress
 	s.DatabaseFilter = cfg.Filter
 	s.Exit = func(code int) {
+		if cfg.ExitImage {
+			if _, err := os.Stat(cfg.Dir + ".at-exit"); err != nil {
+				_ = CopyDir(cfg.Dir, cfg.Dir+".at-exit")
+			}
+		}
 		n.mu.Lock()
 		n.Exits = append(n.Exits, code)
 		n.mu.Unlock()
@@ -209,4 +219,22 @@ func ScratchDir(prefix string) string {
 		panic(fmt.Sprintf("scratch dir: %v", err))
 	}
 	return dir
+}
+
+
+// RestartFromExitImage ends the node the way Store.Exit ends a process: the store object is closed (whatever that
+// does to its directory is discarded), the directory is replaced by the copy taken when Exit was called, and the
+// node is started again.
+func (n *Node) RestartFromExitImage() error {
+	img := n.Cfg.Dir + ".at-exit"
+	if _, err := os.Stat(img); err != nil {
+		return fmt.Errorf("no exit image: %w", err)
+	}
+	_ = n.Stop()
+	n.ClearExits()
+	RemoveAll(n.Cfg.Dir)
+	if err := os.Rename(img, n.Cfg.Dir); err != nil {
+		return err
+	}
+	return n.Start()
 }
